@@ -1,18 +1,29 @@
 """Per-property claims (source of MANIFEST.json; tools/gen_manifest.py renders it)."""
 HOOK_COMMITS = []
 ENGINES = [
-    {"name": "lean-model", "path": "lean/", "serves_properties": ["C01", "C02", "C11", "C12", "C16", "C20"],
+    {"name": "lean-model", "path": "lean/", "serves_properties": ["C01", "C02", "C11", "C12", "C16", "C17", "C20"],
      "kind_free_text": "Lean 4 library Dbus (Spec, Model, Proofs, Props) + compiled line-protocol driver dbus-model"},
-    {"name": "tabulator", "path": "gen/", "serves_properties": ["C01", "C02", "C11", "C12", "C16", "C20"],
+    {"name": "tabulator", "path": "gen/", "serves_properties": ["C01", "C02", "C11", "C12", "C16", "C17", "C20"],
      "kind_free_text": "C translation units that #include repo sources and print finite tables; rendered to lean/Dbus/Generated"},
-    {"name": "h-lib", "path": "harness/lib/", "serves_properties": ["C01", "C02", "C11", "C12", "C16", "C20"],
+    {"name": "h-lib", "path": "harness/lib/", "serves_properties": ["C01", "C02", "C11", "C12", "C16", "C17", "C20"],
      "kind_free_text": "in-process C harnesses linked against the ASan/UBSan build of the working tree"},
 ]
 PENDING = "not implemented yet in this round (planned, see DESIGN.md §4/§7); no check is claimed"
 NOT_APPLICABLE = {p: PENDING for p in
                   ["C03", "C04", "C05", "C06", "C07", "C08", "C09", "C10", "C13", "C14", "C15",
-                   "C17", "C18", "C19"]}
+                   "C18", "C19"]}
 CHECKS = {
+    "C17": {
+        "text": "Proved in Lean over every history of sends, peer messages (replies, duplicates, stray reply serials), reads, single dispatch steps, "
+                "timeout firings, cancels, blocking waits and a peer close at any point: no call is notified twice and an uncompleted call is not "
+                "notified (completes_at_most_once, from the invariant inv_run), a call cancelled before completion stays uncompleted and un-notified "
+                "(cancelled_never_notified), dispatch pairs a message only with the attached call of that serial (reply_matches_serial), serials are "
+                "non-zero for ever and pairwise distinct until the 32-bit counter wraps (serial_nonzero, serials_distinct_before_wrap, by a closed "
+                "form of the counter, not enumeration). 'Exactly once' holds for completion by reply, timeout or blocking wait and FAILS on the "
+                "connection-drop path (known finding F11, proved on a witness: f11_witness). The model is tied to dbus-connection.c / "
+                "dbus-pending-call.c by scripted single-thread histories over a real socket pair with timeouts fired through the timeout callbacks.",
+        "note": "Partial: lock-level interleavings of several threads are outside the model (it assumes the atomicity the connection lock gives); the serial wrap is not reachable by the K-tie.",
+    },
     "C02": {
         "text": "Proved in Lean for every well-formed abstract message (any type, flags, header fields incl. unknown ones, any nested body): its "
                 "serialisation encodeMsg is accepted by the loader model and parses back to the same message (marshal_roundtrip), whatever parses "
